@@ -137,15 +137,9 @@ class JoinFacts:
         if self.probe_loop is None:
             self._err("probe loop (for loop that looks keys up in the index) not found")
 
-        # sweep loop (full join): top-level for after the probe loop that tests membership in a set
+        # sweep loop (full join): top-level for after the probe loop that writes the result buffers
+        # (resolved after the buffers are known, see _find_sweep)
         self.sweep_loop: Optional[ast.For] = None
-        after = False
-        for st in self.top:
-            if st is self.probe_loop:
-                after = True
-                continue
-            if after and isinstance(st, ast.For):
-                self.sweep_loop = st
 
         # flags -----------------------------------------------------------------------
         self.flags: Dict[str, Tuple[Set[str], ast.stmt]] = {}
@@ -189,6 +183,23 @@ class JoinFacts:
                         and isinstance(v.elt.value, ast.Name) and isinstance(v.generators[0].target, ast.Name) \
                         and v.elt.value.id == v.generators[0].target.id and not v.generators[0].ifs:
                     self.append_alias.add(name)
+        self._find_sweep()
+
+    def _find_sweep(self) -> None:
+        after = False
+        for st in self.top:
+            if st is self.probe_loop:
+                after = True
+                continue
+            if after and isinstance(st, ast.For):
+                for n in walk_no_nested(st):
+                    if isinstance(n, ast.Call):
+                        fn = n.func
+                        if (isinstance(fn, ast.Subscript) and isinstance(fn.value, ast.Name) and fn.value.id in self.append_alias) \
+                                or (isinstance(fn, ast.Attribute) and isinstance(fn.value, ast.Subscript)
+                                    and isinstance(fn.value.value, ast.Name) and fn.value.value.id == self.result_data):
+                            if self.sweep_loop is None:
+                                self.sweep_loop = st
 
     # ------------------------------------------------------------------
     def loop_range_of(self, loop: ast.For) -> str:
